@@ -216,6 +216,7 @@ func (fr *frame) unop(instr *ssa.UnOp, x value) value {
 	st := m.st()
 	switch instr.Op {
 	case token.ARROW:
+		m.noSpec("receive")
 		ch, _ := x.(*chanObj)
 		elem := instr.X.Type().Underlying().(*types.Chan).Elem()
 		v, ok := m.sched.recv(fr.g, ch, elem)
@@ -507,6 +508,13 @@ func (fr *frame) typeAssert(instr *ssa.TypeAssert, itf iface) value {
 
 func (fr *frame) callBuiltin(callpos token.Pos, fn *ssa.Builtin, args []value) value {
 	m := fr.m
+	if m.spec > 0 {
+		switch fn.Name() {
+		case "len", "cap", "min", "max", "ssa:wrapnilchk":
+		default:
+			panic(specAbort{"builtin " + fn.Name()})
+		}
+	}
 	switch fn.Name() {
 	case "append":
 		if len(args) == 1 {
